@@ -179,6 +179,16 @@ func (g *Globals) vecOf(e *Eval, gl *ssa.Global) *VecV {
 		e.Relied[gl] = true
 		return v
 	}
+	if v, ok := g.Init[gl].(VecV); ok {
+		// an array built element by element in its declaration (e.g. an array of word lists)
+		for _, el := range v.Elems {
+			if el == nil {
+				return nil
+			}
+		}
+		e.Relied[gl] = true
+		return &v
+	}
 	return nil
 }
 
